@@ -1,9 +1,396 @@
-//! Shrinks a failing scenario while the same violation class persists.
+//! Shrinks a failing scenario while the same violation class persists:
+//! drop operations, drop array elements / lanes / guard cells, simplify the
+//! view, rank-compress values, shorten request lists, and finally freeze the
+//! entropy of every call into an explicit pivot script and shrink that.
 
+use crate::elem::{num_of_raw, NumVal};
+use crate::entropy::{Kind, Policy, TraceItem};
 use crate::exec::Prop;
+use crate::hist::HistScenario;
 use crate::runner::AnyScn;
-use crate::scenario::Violation;
+use crate::scenario::{Scenario, ViewDesc, Violation};
+use ndarray::{ArrayD, Axis, IxDyn, Slice};
+use std::time::{Duration, Instant};
 
-pub fn minimise(_prop: Prop, scn: AnyScn, v: &Violation) -> (AnyScn, Violation, bool) {
-    (scn, v.clone(), false)
+const MAX_EXECS: usize = 6000;
+const MAX_SECS: u64 = 25;
+const CAND_TIMEOUT_MS: u64 = 3000;
+
+/// run a candidate in its own thread so that a hanging candidate cannot hang the minimiser
+fn failing(prop: Prop, cand: &AnyScn, class: &str) -> Option<Violation> {
+    let (tx, rx) = std::sync::mpsc::channel();
+    let c = cand.clone();
+    let cl = class.to_string();
+    std::thread::spawn(move || {
+        let r = c.exec(prop);
+        let _ = tx.send(r.violations.into_iter().find(|v| v.class == cl));
+    });
+    rx.recv_timeout(Duration::from_millis(CAND_TIMEOUT_MS)).ok().flatten()
+}
+
+pub fn minimise(prop: Prop, scn: AnyScn, v: &Violation) -> (AnyScn, Violation, bool) {
+    if v.class == "hang" || v.class == "crash" {
+        return (scn, v.clone(), false);
+    }
+    let t0 = Instant::now();
+    let mut execs = 0usize;
+    let mut best = scn;
+    let mut bestv = v.clone();
+    let mut progressed = false;
+    'outer: loop {
+        let cands: Vec<AnyScn> = match &best {
+            AnyScn::Array(s) => array_candidates(prop, s, bestv.op_index).into_iter().map(AnyScn::Array).collect(),
+            AnyScn::Hist(h) => hist_candidates(h).into_iter().map(AnyScn::Hist).collect(),
+        };
+        for c in cands {
+            if execs >= MAX_EXECS || t0.elapsed().as_secs() >= MAX_SECS {
+                break 'outer;
+            }
+            if c == best {
+                continue;
+            }
+            execs += 1;
+            if let Some(nv) = failing(prop, &c, &v.class) {
+                best = c;
+                bestv = nv;
+                progressed = true;
+                continue 'outer;
+            }
+        }
+        break;
+    }
+    (best, bestv, progressed)
+}
+
+// ---------------------------------------------------------------------------
+
+pub fn index_map(s: &Scenario) -> ArrayD<usize> {
+    let n: usize = s.parent_shape.iter().product();
+    let mut lin = ArrayD::from_shape_vec(IxDyn(&s.parent_shape), (0..n).collect::<Vec<usize>>()).unwrap();
+    let mut v = lin.view_mut();
+    for (ax, &(a, b, st)) in s.view.slices.iter().enumerate() {
+        v.slice_axis_inplace(Axis(ax), Slice::new(a, Some(b), st));
+    }
+    let v = v.permuted_axes(IxDyn(&s.view.perm));
+    v.as_standard_layout().to_owned()
+}
+
+fn plainify(s: &Scenario) -> Scenario {
+    let idx = index_map(s);
+    let mut t = s.clone();
+    t.parent_shape = idx.shape().to_vec();
+    t.data = idx.iter().map(|&c| s.data[c]).collect();
+    t.view = ViewDesc { slices: t.parent_shape.iter().map(|&l| (0, l as isize, 1)).collect(), perm: (0..t.parent_shape.len()).collect() };
+    t
+}
+
+/// keep only the listed physical elements (ascending parent position) of the view along parent axis `pa`
+fn keep_elements(s: &Scenario, pa: usize, keep: &[usize]) -> Scenario {
+    let (a, b, st) = s.view.slices[pa];
+    let step = st.unsigned_abs();
+    let a = a as usize;
+    let b = b as usize;
+    let plen = s.parent_shape[pa];
+    let mut planes: Vec<usize> = (0..a).collect();
+    for (j, &m) in keep.iter().enumerate() {
+        let pos = a + m * step;
+        planes.push(pos);
+        if j + 1 < keep.len() {
+            // gap planes following this element (or synthesize from the ones before when it was the last)
+            for g in 1..step {
+                let gp = if pos + g < b { pos + g } else { pos - g };
+                planes.push(gp);
+            }
+        }
+    }
+    planes.extend(b..plen);
+    let parent = ArrayD::from_shape_vec(IxDyn(&s.parent_shape), s.data.clone()).unwrap();
+    let sel = parent.select(Axis(pa), &planes);
+    let mut t = s.clone();
+    t.parent_shape = sel.shape().to_vec();
+    t.data = sel.iter().copied().collect();
+    let k = keep.len();
+    let span = if k == 0 { 0 } else { (k - 1) * step + 1 };
+    t.view.slices[pa] = (a as isize, (a + span) as isize, st);
+    t
+}
+
+fn trim_guards(s: &Scenario, pa: usize) -> Option<Scenario> {
+    let (a, b, st) = s.view.slices[pa];
+    let plen = s.parent_shape[pa];
+    if a == 0 && b as usize == plen {
+        return None;
+    }
+    let planes: Vec<usize> = (a as usize..b as usize).collect();
+    let parent = ArrayD::from_shape_vec(IxDyn(&s.parent_shape), s.data.clone()).unwrap();
+    let sel = parent.select(Axis(pa), &planes);
+    let mut t = s.clone();
+    t.parent_shape = sel.shape().to_vec();
+    t.data = sel.iter().copied().collect();
+    t.view.slices[pa] = (0, b - a, st);
+    Some(t)
+}
+
+fn rank_compress(s: &Scenario) -> Option<Scenario> {
+    let ty = s.elem;
+    let mut vals: Vec<NumVal> = s.data.iter().filter(|&&r| !ty.is_missing_raw(r)).map(|&r| num_of_raw(ty, r)).collect();
+    let cmp = |a: &NumVal, b: &NumVal| match (a, b) {
+        (NumVal::I(x), NumVal::I(y)) => x.cmp(y),
+        (x, y) => x.as_f64().partial_cmp(&y.as_f64()).unwrap_or(std::cmp::Ordering::Equal),
+    };
+    vals.sort_by(cmp);
+    vals.dedup_by(|a, b| a.num_eq(*b));
+    let mut t = s.clone();
+    for r in t.data.iter_mut() {
+        if ty.is_missing_raw(*r) {
+            continue;
+        }
+        let v = num_of_raw(ty, *r);
+        let rank = vals.iter().position(|x| x.num_eq(v))? as i128;
+        *r = ty.raw_of_int(rank);
+    }
+    if t.data == s.data {
+        None
+    } else {
+        Some(t)
+    }
+}
+
+fn simple_policies() -> Vec<Policy> {
+    vec![Policy::simple(Kind::Low, 0), Policy::simple(Kind::High, 0), Policy::simple(Kind::Mid, 0)]
+}
+
+/// freeze the entropy of each operation's primary call into an explicit script
+fn freeze(prop: Prop, s: &Scenario) -> Option<Scenario> {
+    if s.ops.iter().all(|o| o.policy.kind == Kind::Script) {
+        return None;
+    }
+    crate::entropy::trace_enable(true);
+    let _ = AnyScn::Array(s.clone()).exec(prop);
+    let items = crate::entropy::trace_take();
+    crate::entropy::trace_enable(false);
+    let mut t = s.clone();
+    let mut cur: Option<usize> = None;
+    let mut done = vec![false; s.ops.len()];
+    for it in items {
+        match it {
+            TraceItem::Mark(k) => cur = Some(k),
+            TraceItem::Session(d) => {
+                if let Some(k) = cur {
+                    if k < t.ops.len() && !done[k] {
+                        done[k] = true;
+                        t.ops[k].policy = Policy::script(d.iter().map(|x| x.pick).collect());
+                    }
+                }
+            }
+        }
+    }
+    Some(t)
+}
+
+fn array_candidates(prop: Prop, s: &Scenario, fail_op: usize) -> Vec<Scenario> {
+    let mut out = vec![];
+    // 1. nothing after the failing operation matters
+    if s.ops.len() > fail_op + 1 {
+        let mut t = s.clone();
+        t.ops.truncate(fail_op + 1);
+        out.push(t);
+    }
+    // 2. drop one operation
+    for i in 0..s.ops.len() {
+        if s.ops.len() > 1 {
+            let mut t = s.clone();
+            t.ops.remove(i);
+            out.push(t);
+        }
+    }
+    // 3. simpler world
+    let plain = s.view.slices.iter().zip(&s.parent_shape).all(|(&(a, b, st), &l)| a == 0 && b as usize == l && st == 1) && s.view.perm.iter().enumerate().all(|(i, &p)| i == p);
+    if !plain {
+        out.push(plainify(s));
+    }
+    if s.static_dim {
+        let mut t = s.clone();
+        t.static_dim = false;
+        out.push(t);
+    }
+    for pa in 0..s.parent_shape.len() {
+        if let Some(t) = trim_guards(s, pa) {
+            out.push(t);
+        }
+    }
+    // 4. fewer elements: halves first, then single elements
+    for pa in 0..s.parent_shape.len() {
+        let (a, b, st) = s.view.slices[pa];
+        let span = (b - a).max(0) as usize;
+        let step = st.unsigned_abs();
+        let l = if span == 0 { 0 } else { (span - 1) / step + 1 };
+        if l >= 2 {
+            out.push(keep_elements(s, pa, &(0..l / 2).collect::<Vec<_>>()));
+            out.push(keep_elements(s, pa, &(l / 2..l).collect::<Vec<_>>()));
+        }
+        if l >= 1 && l <= 40 {
+            for m in 0..l {
+                let keep: Vec<usize> = (0..l).filter(|&x| x != m).collect();
+                out.push(keep_elements(s, pa, &keep));
+            }
+        }
+    }
+    // 5. simpler values
+    if let Some(t) = rank_compress(s) {
+        out.push(t);
+    }
+    // 6. simpler requests
+    for (i, op) in s.ops.iter().enumerate() {
+        for j in 0..op.idx.len() {
+            if op.idx.len() > 1 {
+                let mut t = s.clone();
+                t.ops[i].idx.remove(j);
+                out.push(t);
+            }
+            for nv in [0u64, op.idx[j] / 2, op.idx[j].saturating_sub(1)] {
+                if nv != op.idx[j] {
+                    let mut t = s.clone();
+                    t.ops[i].idx[j] = nv;
+                    out.push(t);
+                }
+            }
+        }
+        for j in 0..op.qs.len() {
+            if op.qs.len() > 1 {
+                let mut t = s.clone();
+                t.ops[i].qs.remove(j);
+                out.push(t);
+            }
+            for nq in [0.0, 0.5, 1.0] {
+                if nq != op.qs[j] {
+                    let mut t = s.clone();
+                    t.ops[i].qs[j] = nq;
+                    out.push(t);
+                }
+            }
+        }
+        if op.form != 0 {
+            let mut t = s.clone();
+            t.ops[i].form = 0;
+            out.push(t);
+        }
+        if !op.inner.is_empty() {
+            let mut t = s.clone();
+            t.ops[i].inner = String::new();
+            out.push(t);
+        }
+        for j in 0..op.aux.len() {
+            for k in 0..op.aux[j].len() {
+                if op.aux[j].len() > 1 && !matches!(op.name.as_str(), "weighted_axis" | "law_relabel") {
+                    let mut t = s.clone();
+                    t.ops[i].aux[j].remove(k);
+                    out.push(t);
+                }
+            }
+        }
+        // 7. simpler schedules
+        if op.policy.kind != Kind::Script {
+            for p in simple_policies() {
+                if p.kind != op.policy.kind {
+                    let mut t = s.clone();
+                    t.ops[i].policy = p;
+                    out.push(t);
+                }
+            }
+        }
+        for p in simple_policies() {
+            if p.kind != op.alt.kind {
+                let mut t = s.clone();
+                t.ops[i].alt = p;
+                out.push(t);
+            }
+        }
+    }
+    // 8. explicit pivot scripts, then shrink them
+    if let Some(t) = freeze(prop, s) {
+        out.push(t);
+    }
+    for (i, op) in s.ops.iter().enumerate() {
+        if op.policy.kind == Kind::Script {
+            let sc = &op.policy.script;
+            if !sc.is_empty() {
+                let mut t = s.clone();
+                t.ops[i].policy.script.pop();
+                out.push(t);
+            }
+            for j in 0..sc.len().min(24) {
+                for nv in [0u64, sc[j] / 2, sc[j].saturating_sub(1)] {
+                    if nv != sc[j] {
+                        let mut t = s.clone();
+                        t.ops[i].policy.script[j] = nv;
+                        out.push(t);
+                    }
+                }
+            }
+        }
+    }
+    out
+}
+
+fn hist_candidates(h: &HistScenario) -> Vec<HistScenario> {
+    let mut out = vec![];
+    let d = h.edges.len();
+    // single producer, delivered order
+    if h.producers.len() > 1 {
+        let del = h.delivered();
+        let n = del.len();
+        out.push(HistScenario { producers: vec![del], delivery: vec![0; n], forms: h.forms.iter().copied().take(n).collect(), ..h.clone() });
+        return out;
+    }
+    let obs = h.producers.first().cloned().unwrap_or_default();
+    let n = obs.len();
+    let rebuild = |o: Vec<Vec<i64>>, forms: Vec<u8>, edges: Vec<Vec<i64>>| HistScenario { producers: vec![o.clone()], delivery: vec![0; o.len()], forms, edges, ..h.clone() };
+    if n >= 2 {
+        out.push(rebuild(obs[..n / 2].to_vec(), h.forms.iter().copied().take(n / 2).collect(), h.edges.clone()));
+        out.push(rebuild(obs[n / 2..].to_vec(), h.forms.iter().copied().skip(n / 2).collect(), h.edges.clone()));
+    }
+    for k in 0..n {
+        let mut o = obs.clone();
+        o.remove(k);
+        let mut f = h.forms.clone();
+        if k < f.len() {
+            f.remove(k);
+        }
+        out.push(rebuild(o, f, h.edges.clone()));
+    }
+    for j in 0..d {
+        for k in 0..h.edges[j].len() {
+            let mut e = h.edges.clone();
+            e[j].remove(k);
+            out.push(rebuild(obs.clone(), h.forms.clone(), e));
+        }
+    }
+    if d > 1 {
+        for j in 0..d {
+            let mut e = h.edges.clone();
+            e.remove(j);
+            let o: Vec<Vec<i64>> = obs
+                .iter()
+                .map(|x| {
+                    let mut y = x.clone();
+                    if j < y.len() {
+                        y.remove(j);
+                    }
+                    y
+                })
+                .collect();
+            out.push(rebuild(o, h.forms.clone(), e));
+        }
+    }
+    if h.forms.iter().any(|&f| f != 0) {
+        out.push(HistScenario { forms: vec![0; h.forms.len()], ..h.clone() });
+    }
+    if h.matrix_order != 0 {
+        out.push(HistScenario { matrix_order: 0, ..h.clone() });
+    }
+    if h.elem != "i32" {
+        out.push(HistScenario { elem: "i32".into(), ..h.clone() });
+    }
+    out
 }
